@@ -94,7 +94,7 @@ def run(ctx):
     # terminal oxygen names agree between the reader and the bond maker
     rl = RecordLoop(prog)
     term_c = [s for s in walk_no_nested(rl.loop) if isinstance(s, ast.Assign)
-              and norm(s.targets[0]) == 'terminal' and isinstance(s.value, ast.Constant)
+              and norm(s.targets[0]) == rl.terminal_var and isinstance(s.value, ast.Constant)
               and s.value.value == 'C-']
     benv = eval_init(prog, 'bonds', 'BondMaker')
     bm_names = benv.get('self.terminal_oxygen_names')
@@ -176,9 +176,20 @@ def run(ctx):
            seq[:2] == ['is_protein_group', 'is_ion_group'] and 'is_ligand_group_by_groups' in seq,
            'is_group tries protein, ion, then ligand classification (%s)' % seq, gmod, isg)
     rets_isg = [r for r in walk_no_nested(isg) if isinstance(r, ast.Return)]
-    ctx.ob('C01.R3', 'is_group:returns-first-match',
-           all(norm(r.value) in ('protein_group', 'ion_group', 'ligand_group', 'None')
-               for r in rets_isg) and len(rets_isg) >= 3,
+    cls_defs = {}
+    for s_ in walk_no_nested(isg):
+        if isinstance(s_, ast.Assign) and isinstance(s_.targets[0], ast.Name) \
+                and isinstance(s_.value, ast.Call) and (call_name(s_.value) or '').startswith('is_'):
+            cls_defs.setdefault(s_.targets[0].id, []).append(call_name(s_.value))
+    ok_rets = len(rets_isg) >= 3
+    for r in rets_isg:
+        if isinstance(r.value, ast.Constant) and r.value.value is None:
+            continue
+        if isinstance(r.value, ast.Name) and r.value.id in cls_defs and any(
+                p and t == r.value.id for t, p in fact_texts(r, isg)):
+            continue
+        ok_rets = False
+    ctx.ob('C01.R3', 'is_group:returns-first-match', ok_rets,
            'is_group returns the first classifier result that is not None', gmod, isg)
     # appends to a container's group list
     app_sites = []
@@ -213,8 +224,14 @@ def run(ctx):
     # every conformation is extracted
     mc = prog.mod('molecular_container')
     meg = mc.func('MolecularContainer.extract_groups')
-    ctx.ob('C01.R3', 'extract_groups:every-conformation',
-           'for name in self.conformation_names' in norm(meg) and 'extract_groups()' in norm(meg),
+    mloops = [n for n in walk_no_nested(meg) if isinstance(n, ast.For)
+              and norm(n.iter) == 'self.conformation_names' and isinstance(n.target, ast.Name)]
+    ok_m = len(mloops) == 1 and any(
+        last_attr(c) == 'extract_groups'
+        and norm(c.func.value) == 'self.conformations[%s]' % mloops[0].target.id
+        for c in calls_in(mloops[0])) and not any(
+            isinstance(n, (ast.If, ast.Break, ast.Continue)) for n in ast.walk(mloops[0]))
+    ctx.ob('C01.R3', 'extract_groups:every-conformation', ok_m,
            'groups are extracted in every conformation', mc, meg)
     # atom.group back-pointer is set by Group.__init__ only
     gi = gmod.func('Group.__init__')
@@ -240,7 +257,11 @@ def run(ctx):
             lps = enclosing_loops(calls[0], f)
             its = [norm(l.iter) for l in lps]
             facts = fact_texts(calls[0], f)
-            eq = any(p and t.replace(' ', '') == 'group.residue_type==residue_type' for t, p in facts)
+            order_vars = [norm(l.target) for l in lps if 'write_out_order' in norm(l.iter)]
+            group_var = norm(calls[0].func.value)
+            eq = any(p and t.replace(' ', '') in ('%s.residue_type==%s' % (group_var, ov),
+                                                  '%s==%s.residue_type' % (ov, group_var))
+                     for t, p in facts for ov in order_vars)
             ok = any('write_out_order' in i for i in its) and eq and \
                 not any(isinstance(n, (ast.Break, ast.Continue)) for l in lps for n in ast.walk(l))
         ctx.ob('C01.R4', 'section:' + qual, ok,
@@ -267,7 +288,7 @@ def run(ctx):
 
     # ------------------------------------------------------------------ R6
     nplus = [s for s in walk_no_nested(rl.loop) if isinstance(s, ast.Assign)
-             and norm(s.targets[0]) == 'terminal' and isinstance(s.value, ast.Constant)
+             and norm(s.targets[0]) == rl.terminal_var and isinstance(s.value, ast.Constant)
              and s.value.value == 'N+']
     if len(nplus) != 1 or len(term_c) != 1:
         raise AnalysisError('C01.R6: terminus tagging statements not found')
@@ -362,8 +383,8 @@ def run(ctx):
     # the tag is attached to the atom and cleared after every record
     blk = rl.atom_block.body
     attach = [s for s in blk if isinstance(s, ast.Assign) and norm(s.targets[0]).endswith('.terminal')
-              and norm(s.value) == 'terminal']
-    clear = [s for s in blk if isinstance(s, ast.Assign) and norm(s.targets[0]) == 'terminal'
+              and norm(s.value) == rl.terminal_var]
+    clear = [s for s in blk if isinstance(s, ast.Assign) and norm(s.targets[0]) == rl.terminal_var
              and norm(s.value) == 'None']
     ys = [s for s in blk if any(isinstance(y, ast.Yield) for y in ast.walk(s))]
     ok = len(attach) == 1 and len(clear) == 1 and len(ys) == 1 and \
@@ -386,16 +407,21 @@ def run(ctx):
                 '%sinself.parameters.%s.keys()' % (keyt.replace(' ', ''), tbl),
                 '%sinself.parameters.%s' % (keyt.replace(' ', ''), tbl)) for t, p in facts)
             reads[(norm(node.targets[0]), tbl)] = (keyt, guarded, node)
+    keydef = [s_ for s_ in walk_no_nested(setup) if isinstance(s_, ast.Assign)
+              and isinstance(s_.targets[0], ast.Name) and isinstance(s_.value, ast.Call)
+              and last_attr(s_.value) == 'format' and isinstance(s_.value.func.value, ast.Constant)
+              and s_.value.func.value.value == '{0:s}-{1:s}']
+    key_name = keydef[0].targets[0].id if len(keydef) == 1 else 'key'
     want = {('self.charge', 'charge'): 'self.type', ('self.charge', 'ions'): 'self.residue_type',
             ('self.model_pka', 'model_pkas'): 'self.residue_type',
-            ('self.model_pka', 'custom_model_pkas'): 'key'}
+            ('self.model_pka', 'custom_model_pkas'): key_name}
     for (tgt, tbl), wkey in want.items():
         got = reads.get((tgt, tbl))
         ctx.ob('C01.R7', 'setup-read:%s<-%s' % (tgt, tbl),
                got is not None and got[0] == wkey and got[1],
                'Group.setup reads %s from parameters.%s[%s] under a membership test on that key '
-               '(found %s)' % (tgt, tbl, wkey, got[:2] if got else None), gmod,
-               got[2] if got else setup)
+               '(found %s)' % (tgt, tbl, wkey if wkey != key_name else '<custom key>',
+                               got[:2] if got else None), gmod, got[2] if got else setup)
     # order: ions override charge; custom overrides model
     def line(tgt, tbl):
         g = reads.get((tgt, tbl))
@@ -404,10 +430,8 @@ def run(ctx):
            and 0 < line('self.model_pka', 'model_pkas') < line('self.model_pka', 'custom_model_pkas'),
            'ion charges override type charges and custom model pKas override the tabulated ones',
            gmod, setup)
-    keydef = [s for s in walk_no_nested(setup) if isinstance(s, ast.Assign)
-              and norm(s.targets[0]) == 'key']
-    ok = len(keydef) == 1 and 'self.atom.res_name.strip()' in norm(keydef[0].value) \
-        and 'self.atom.name.strip()' in norm(keydef[0].value) and "'{0:s}-{1:s}'" in norm(keydef[0].value)
+    ok = len(keydef) == 1 and [norm(a) for a in keydef[0].value.args] == \
+        ['self.atom.res_name.strip()', 'self.atom.name.strip()']
     ctx.ob('C01.R7', 'setup:custom-key', ok,
            'the custom model-pKa key is "<residue name>-<atom name>"', gmod,
            keydef[0] if keydef else setup)
